@@ -29,6 +29,7 @@ CHECKS["C01"] = {
     "jobs": [
         J("identity", "c01", "TestIdentity", 3000, 60000, 12),
         J("scale", "c01", "TestScale", 6, 60, 4),
+        J("history", "c01", "TestPostStartHistory", 800, 20000, 4, steps=30),
     ],
     "assumptions": [
         "a *T pointer field cannot hold a substitute object, so the wrapping post-processor only wraps node variants that no pointer-typed field references",
